@@ -19,6 +19,10 @@ MANIFEST = dict(
           "with warm caches. The name table of the two affine dimensions (difference units, alternative spellings, prefixed forms) is walked "
           "against anchors and in three-unit chains, with user-defined symbolic units under a difference-unit spelling; the dtype of the "
           "buffer (int64, uint64, int32, float32) is an axis of the chain, base-route and history families, with symbolic (integer) values. "
+          "Request sequences across registries run inside one path: one source, the target walking over Unit objects of the same spelling in two other "
+          "registries, another spelling, a string and a Unit of the source's registry (and mirrored: one target object, same-spelling sources of "
+          "several registries), every scale and offset symbolic, through every entry point; z3 proves each answer against the scale the target "
+          "OBJECT carries, plus inverse and composition across the registries. "
           "Bounded: kinds, chains, payload shapes <= (2,2); rounding, complex and 1-/2-byte buffers are outside."),
     design="DESIGN.md section 4 C03",
     technique="symbolic execution of the real Python code over z3 real terms; SMT (QF_NRA) obligations per path; counterexample replay")
@@ -49,7 +53,17 @@ EXPLANATION = (
     "int64 / uint64 / int32 / float32 through .dtype, .d and .ndview and follows NumPy's rules for x.dtype = f, x.astype(f) and "
     "x.copy(); the real integer branches of convert_to_units (retyping dance), in_units / in_base (overflow test, float width) run on "
     "it with symbolic integer values (z3: ToInt(x) = x, bounded), all six entry points, the base routes with their in-place twins, "
-    "and histories whose head is the typed buffer converted in place before or after copies were derived from it."
+    "and histories whose head is the typed buffer converted in place before or after copies were derived from it. "
+    "Cross-registry request sequences (xreg, xregSrc): three registries S, B, C each define the spelling xb (and xa / xc) with their own symbolic "
+    "scale and offset; inside ONE path (nothing is reset between requests, so every memo layer of the library is warm) the same source "
+    "quantity xa of S is converted to, in several orders and with repeats: Unit('xb') of B, Unit('xb') of C, another spelling Unit('xc') of B, "
+    "the string 'xb' (resolved in S) and Unit('xb') of S - through to, in_units, to_value, convert_to_units on a copy, get_conversion_factor by "
+    "hand (two spellings), an in-place walk of ONE object through all the targets (each leg from the previous target's registry), and a "
+    "mixed sequence of entry points and call forms; kinds: plain, prefixed, offset (temperature), prefixed offset, angle with offset. Per "
+    "request z3 proves: the numbers are the affine oracle's with the scale/offset of the registry the target OBJECT belongs to, the unit "
+    "returned is that object's, A->B->A back to the source's unit, A->(previous target)->(this target) == A->(this target) across "
+    "registries, input untouched. xregSrc mirrors it: ONE target object Unit('xb') of B, the source walking over xa of S, xa of C, xc of S "
+    "and xa of B. A factor remembered under spellings, or under one side's registry only, answers the second request with the first one's scale."
 )
 BOUNDS = {
     "quick": "unit kinds {plain, prefixed plain, compound, temperature plain/affine/prefixed-affine, user angle with offset, "
@@ -61,14 +75,20 @@ BOUNDS = {
              "offsets, those of the first registry non-zero), 2 registries x 6 entry points x 2 rounds. Name table: 19 temperature and 11 angle "
              "spellings x (5 resp. 3 anchors, both directions, 6 entry points) + 2 three-unit chains per spelling (to + convert_to_units). "
              "Dtypes: 11 pairs + 2 triples x {int64 + one of uint64/int32/float32, rotating} x 6 entry points, 8 base-route cases x 2 dtypes, "
-             "5 history triples x 6 in-place conversions x {int64, uint64, int32} rotating; integer values in [-30000, 30000]",
+             "5 history triples x 6 in-place conversions x {int64, uint64, int32} rotating; integer values in [-30000, 30000]. "
+             "Cross-registry sequences: 3 kinds (plain, offset, prefixed) x 8 entry points (6 + in-place walk + mixed call forms), one of 6 orders "
+             "of 5 requests each (rotating; offset kind: the first 3 requests), + mirrored: 3 kinds x 6 entry points, one of 4 orders of 4 sources; scalar / 2-element payloads "
+             "alternating; the scales of one sequence assumed pairwise different (ratio > 1.001) and the offsets non-zero",
     "thorough": "same kinds; all ordered triples per family; scalar, (2,) and (2,2) payloads; 6 entry points; EM pairs with 3 prefixes. "
                 "Histories: 40 triples (adds compound, energy, two free affine units, symbolic prefixed-offset targets, more table "
                 "pairs) x 8 in-place steps x {`to` + "
                 "every 2nd other chain} (thinned: the full chain product costs ~4x), the other payload shape of the quick tier, plus (2,2) "
                 "on three triples; epoch families (length, temperature, angle) with scalar and 2-element payloads. Name table: each spelling "
                 "additionally between every ordered pair of anchors and before each anchor. Dtypes: all four dtypes x both shapes on every "
-                "typed pair/triple (three free units: scalar only) and base case, 10 history triples",
+                "typed pair/triple (three free units: scalar only) and base case, 10 history triples. Cross-registry sequences: 5 kinds "
+                "(adds prefixed offset, angle with offset) x 8 entry points x every second of 6 orders (rotating: every (entry, order) and (kind, "
+                "order) pair is walked), mirrored likewise over 4 orders; 12 /free cases (3 requests, no assumption on scales/offsets: equal "
+                "scales and zero offsets included) on to + mixed",
 }
 OUTSIDE = ("IEEE rounding/overflow (A1); complex, float16 and 1-/2-byte integer payloads (C17); typed payloads are walked on the listed "
            "pairs/triples only (not on every kind pair), their values are bounded by 30000 in magnitude (the overflow branch of the "
@@ -77,7 +97,9 @@ OUTSIDE = ("IEEE rounding/overflow (A1); complex, float16 and 1-/2-byte integer 
            "of dimensions without offsets (the compound/plain families use symbolic units and a few table units); units whose scale is not "
            "positive except the table's lat; histories longer than two derivations plus one in-place step; in-place arithmetic other "
            "than multiply and a raw buffer write; equivalence routes (to_equivalent, C09); base routes inside EM histories; histories "
-           "with three free symbolic scales at once (the third unit of such a history is a table unit)")
+           "with three free symbolic scales at once (the third unit of such a history is a table unit); cross-registry sequences: more than "
+           "three registries, compound targets, EM and base routes across registries, sequences longer than five requests, equal scales / zero "
+           "offsets on other than the /free cases, a symbolic base scale under a prefixed offset unit")
 
 NAMES = ["xa", "xb", "xc", "xta", "xtb", "xtc", "xtk", "xtp", "xtq", "xga", "xgb", "xs"]
 
@@ -776,6 +798,177 @@ def make_epoch_case(fam, shape, free=True):
                 max_paths=20000, weight=40)
 
 
+# ----------------------------------------------------------------------------- request sequences across registries
+#
+# The epoch family keeps source and target inside one registry (string targets are parsed with the source's registry). A target
+# may also be a Unit OBJECT that belongs to ANOTHER registry (two datasets that both define "code_length"): the factor then
+# follows from the scale/offset the target object carries, not from its spelling. The xreg family makes, inside ONE path (all
+# memo layers of the library stay warm), a SEQUENCE of requests in which the source stays the same quantity and the target
+# walks over: the spelling xb as a Unit of registry B, the same spelling as a Unit of registry C, another spelling (Unit of B),
+# the string (resolved in the source's registry S, which has its own xb) and a Unit object of S - every one with its own
+# symbolic scale and offset. xregSrc mirrors it: ONE target object, sources spelled alike in two registries (plus another
+# spelling and a source of the target's own registry).
+
+XREG_KINDS = ("plain", "offset", "prefixed", "prefOffset", "angle")
+XREG_ORDERS = [("B", "C", "other", "str", "own"), ("C", "B", "own", "other", "str"), ("str", "B", "C", "own", "other"),
+               ("own", "C", "str", "B", "other"), ("other", "str", "B", "own", "C"), ("B", "C", "B", "str", "C")]
+XREG_SRC_ORDERS = [("1", "2", "other", "home"), ("2", "1", "home", "other"), ("home", "1", "2", "1"), ("other", "2", "home", "1")]
+XREG_ENTRIES = ENTRIES + ["inplace", "mixed"]
+
+
+def _xreg_unit(ctx, reg, kind, name, tag, nonzero=False):
+    """row `name` in registry `reg` with its own symbols (suffix tag) -> (spelling, oracle)"""
+    D = ctx.mods["unyt"].dimensions
+    if kind in ("plain", "prefixed"):
+        s = ctx.real(f"{name}_s{tag}", pos=True)
+        ctx.add_row(reg, name, D.length, s, 0.0, prefixable=True)
+        if kind == "prefixed":
+            return "k" + name, U("k" + name, s * PREFIX["k"], 0.0)
+        return name, U(name, s, 0.0)
+    if kind in ("offset", "angle"):
+        s = ctx.real(f"{name}_s{tag}", pos=True)
+        o = ctx.real(f"{name}_o{tag}", nonzero=nonzero)
+        ctx.add_row(reg, name, D.temperature if kind == "offset" else D.angle, s, o)
+        return name, U(name, s, o)
+    if kind == "prefOffset":
+        # base scale concrete (as kind Tk; a symbolic one costs minutes per request), offset symbolic: SI = p*(x - o/p)
+        o = ctx.real(f"{name}_o{tag}", nonzero=nonzero)
+        ctx.add_row(reg, name, D.temperature, 1.0, o, prefixable=True)
+        p = PREFIX["m"]
+        return "m" + name, U("m" + name, p, o / p)
+    raise KeyError(kind)
+
+
+def _xreg_band(*orcs):
+    tot = 0
+    for o in orcs:
+        tot = tot + vabs(o.o * o.s)
+    return tot * float(1e-6)
+
+
+def make_xreg_case(kind, order, entry, shape, free=False, mirror=False):
+    def h(ctx):
+        unyt = ctx.mods["unyt"]
+        Unit = unyt.Unit
+        x = ctx.reals("x", shape)
+        xs = elements(x)
+        regS, regB, regC = ctx.registry([]), ctx.registry([]), ctx.registry([])
+        if not mirror:
+            # one source (xa of S); five targets
+            sA, oA = _xreg_unit(ctx, regS, kind, "xa", "S", nonzero=not free)
+            spS, orS = _xreg_unit(ctx, regS, kind, "xb", "S", nonzero=not free)
+            spB, orB = _xreg_unit(ctx, regB, kind, "xb", "B", nonzero=not free)
+            spC, orC = _xreg_unit(ctx, regC, kind, "xb", "C", nonzero=not free)
+            spO, orO = _xreg_unit(ctx, regB, kind, "xc", "B", nonzero=not free)
+            q = ctx.quantity(x, sA, regS)
+            tg = {"B": (Unit(spB, registry=regB), orB), "C": (Unit(spC, registry=regC), orC), "other": (Unit(spO, registry=regB), orO),
+                  "str": (spS, orS), "own": (Unit(spS, registry=regS), orS)}
+            reqs = [(f"{i}:{t}", q, oA, tg[t][0], tg[t][1]) for i, t in enumerate(order)]
+            home = {id(regS): orS, id(regB): orB, id(regC): orC}
+        else:
+            # one target object (xb of B); the sources: xa of S, xa of C, xc of S, xa of B (the target's own registry)
+            spT, orT = _xreg_unit(ctx, regB, kind, "xb", "B", nonzero=not free)
+            T = Unit(spT, registry=regB)
+            srcs = {}
+            for t, reg, nm, tag in (("1", regS, "xa", "S"), ("2", regC, "xa", "C"), ("other", regS, "xc", "S"), ("home", regB, "xa", "B")):
+                sp, orc = _xreg_unit(ctx, reg, kind, nm, tag, nonzero=not free)
+                srcs[t] = (ctx.quantity(ctx.reals("x", shape), sp, reg), orc)
+            reqs = [(f"{i}:{t}", srcs[t][0], srcs[t][1], T, orT) for i, t in enumerate(order)]
+        if not free:
+            # the units of one sequence are pairwise different in scale (the equal-scale shortcut `units == other` is the subject of the
+            # hist family's twin symbols; here every pair would fork on it: 2^7 paths). The /free cases of the thorough tier drop this.
+            orcs = []
+            for r in reqs:
+                for o in (r[2], r[4]):
+                    if not any(o is p for p in orcs):
+                        orcs.append(o)
+            if not mirror:
+                orcs += [o for o in home.values() if not any(o is p for p in orcs)]
+            for a, b in itertools.combinations(orcs, 2):
+                ctx.assume(Or(a.s > b.s * 1.001, b.s > a.s * 1.001))
+        walker = None
+        prev = None
+        for i, (lab, q, oA, tgt, oT) in enumerate(reqs):
+            e = entry
+            if entry == "mixed":
+                e = (ENTRIES + ["to/Unit", "convert_to_units/kw", "to_value/Unit", "in_units/kw"])[(i * 3 + len(order[0])) % 10]
+                if isinstance(tgt, str) and e.endswith("/Unit"):
+                    e = e.split("/")[0]
+            u_before = q.units
+            tU = tgt if isinstance(tgt, Unit) else Unit(tgt, registry=q.units.registry)
+            if entry == "inplace":
+                # the in-place twin: ONE object walks through the targets (mirror: a fresh copy of each source), every leg in place
+                if walker is None or mirror:
+                    walker = q.copy()
+                if isinstance(tgt, str):
+                    # a string is resolved in the registry the walker's unit belongs to at that moment
+                    tU = Unit(tgt, registry=walker.units.registry)
+                    oT = oT if mirror else home[id(walker.units.registry)]
+                walker.convert_to_units(tgt)
+                vals, u = payload(walker), walker.units
+            else:
+                vals, u = convert(ctx, q, tgt, e)
+            si_in = [oA.si(v) for v in xs]
+            ctx.require(f"xreg/{lab}/target's own scale: si/{e}", And(*[si_close(oT.si(v), s, oT, oA) for v, s in zip(vals, si_in)]), entry=e)
+            ctx.observe(f"xreg/{lab}", vals)
+            if u is not None:
+                ctx.require(f"xreg/{lab}/unit/{e}", unit_same(u, tU))
+            # there and back, and through the previous target of the sequence (composition across registries)
+            there = q.to(tU if entry == "inplace" else tgt)
+            back = there.to(u_before)
+            ctx.require(f"xreg/{lab}/A->B->A", all_close(payload(back), xs, extra=float(1e-6) * (vabs(oA.o) + vabs(oT.o * oT.s / oA.s))))
+            if prev is not None and not mirror:
+                (ptgt, poT) = prev
+                via = q.to(ptgt).to(tU)
+                ctx.require(f"xreg/{lab}/A->B->C == A->C", And(
+                    all_close(payload(via), payload(there), extra=float(1e-6) * (vabs(oT.o) + vabs(oA.o * oA.s / oT.s) + vabs(poT.o * poT.s / oT.s))),
+                    unit_same(via.units, there.units)))
+            if mirror and prev is not None:
+                # the previous source through the current one to the target == directly
+                (pq, poA) = prev
+                via = pq.to(u_before).to(tgt)
+                direct = pq.to(tgt)
+                ctx.require(f"xreg/{lab}/A->B->C == A->C", And(
+                    all_close(payload(via), payload(direct), extra=float(1e-6) * (vabs(oT.o) + vabs(oA.o * oA.s / oT.s) + vabs(poA.o * poA.s / oT.s))),
+                    unit_same(via.units, direct.units)))
+            ctx.require(f"xreg/{lab}/input untouched", And(all_close(payload(q), xs, tol=0), q.units is u_before))
+            prev = (q, oA) if mirror else (tU, oT)
+
+    sh = "x".join(map(str, shape)) or "0"
+    return Case(f"C03/{'xregSrc' if mirror else 'xreg'}/{kind}/{'-'.join(order)}/{entry.replace('/', '.')}/shape{sh}" + ("/free" if free else ""), h,
+                bounds="symbolic: values, every scale and offset of 3 registries; enumerated: order of requests, entry point", budget_s=900,
+                max_paths=20000, weight=40)
+
+
+def xreg_cases(tier):
+    out = []
+    if tier == "quick":
+        kinds = XREG_KINDS[:3]
+        for ki, kind in enumerate(kinds):
+            for ei, e in enumerate(XREG_ENTRIES):
+                # (offset kind: the first three requests of the order - each prefix still has two same-spelling targets of different registries)
+                out.append(make_xreg_case(kind, XREG_ORDERS[(ki + ei) % len(XREG_ORDERS)][:3 if kind == "offset" else 5], e, () if (ki + ei) % 2 else (2,)))
+            for ei, e in enumerate(XREG_ENTRIES[:1] + XREG_ENTRIES[2:4] + XREG_ENTRIES[5:]):
+                out.append(make_xreg_case(kind, XREG_SRC_ORDERS[(ki + ei) % len(XREG_SRC_ORDERS)][:3 if kind == "offset" else 4], e,
+                                          () if (ki + ei) % 2 == 0 else (2,), mirror=True))
+        return out
+    # thinned: every (kind, entry point) sees every second order, rotating, so that every (entry point, order) and every (kind, order) pair is
+    # walked (the full product is 2x the cost); /free (no assumption on scales and offsets: 2^7 paths) on two entry points of the offset kinds
+    for ki, kind in enumerate(XREG_KINDS):
+        for ei, e in enumerate(XREG_ENTRIES):
+            for oi, order in enumerate(XREG_ORDERS):
+                if (ki + ei + oi) % 2 == 0:
+                    out.append(make_xreg_case(kind, order, e, () if (ki + ei + oi // 2) % 2 else (2,)))
+            for oi, order in enumerate(XREG_SRC_ORDERS):
+                if (ki + ei + oi) % 2 == 0:
+                    out.append(make_xreg_case(kind, order, e, () if (ki + ei + oi // 2) % 2 == 0 else (2,), mirror=True))
+    for kind in ("offset", "angle", "plain"):
+        for e in ("to", "mixed"):
+            out.append(make_xreg_case(kind, XREG_ORDERS[0][:3], e, (), free=True))
+            out.append(make_xreg_case(kind, XREG_SRC_ORDERS[0][:3], e, (), free=True, mirror=True))
+    return out
+
+
 HIST_TRIPLES_QUICK = [
     ["plainL", "=", "kplainL"], ["plainL", "~", "uplainL"], ["plainL", "plainL", "cm"],
     ["Taffine", "=", "Tplain"], ["Taffine", "~", "mdegC"], ["Taffine", "degC", "K"],
@@ -919,6 +1112,7 @@ def cases(tier, mods):
                 out.append(make_base_case(k, s, ()))
         out += history_cases(HIST_TRIPLES_QUICK, rotate=4)
         out += history_cases(HIST_TYPED, rotate=4, dtypes=("i8", "u8", "i4"))
+        out += xreg_cases(tier)
         for f in ("L", "T"):
             out.append(make_epoch_case(f, (), free=False))
     else:
@@ -951,4 +1145,5 @@ def cases(tier, mods):
         for f in ("L", "T", "G"):
             for sh in [(), (2,)]:
                 out.append(make_epoch_case(f, sh))
+        out += xreg_cases(tier)
     return out
